@@ -10,10 +10,10 @@ def gen_streams(wd, tier, seed, name="gen"):
     per_worker = 40 if tier == "quick" else 400
     parts = []
     batches = [("FALSE", "mixed", per_worker), ("TRUE", "mixed", max(10, per_worker // 4)),
-               ("FALSE", "far", max(15, per_worker // 3))]
+               ("FALSE", "far", max(15, per_worker // 3)), ("FALSE", "twin", max(10, per_worker // 4))]
     for i, (repzero, mode, n) in enumerate(batches):
         p = os.path.join(wd, "%s_%d.ndjson" % (name, i))
-        generate("Gen_Deflate", wd, p, constants={"MaxTok": 30, "MaxBlk": 3, "RepZero": repzero, "Mode": '"%s"' % mode},
+        generate("Gen_Deflate", wd, p, constants={"MaxTok": 30, "MaxBlk": 2 if mode == "twin" else 3, "RepZero": repzero, "Mode": '"%s"' % mode},
                  invariants=["Replay"], simulate="num=%d" % n, seed=seed * 10 + i, workers=6, timeout=3000)
         parts.append(p)
     with open(out, "w") as o:
@@ -166,6 +166,32 @@ def replay_catalogue(c, wd, pid):
     if unexpected:
         c.note("the library accepts inputs RFC 1951 and zlib reject, beyond the documented leniencies: %s" % unexpected[:5])
     return rs
+
+
+def critical_positions(c, wd, pid, seed):
+    """Positions.tla: the 16-bit position arithmetic of the hash tables never overflows for any
+    token sequence (model), does overflow under the seeded threshold (negative configuration),
+    and the critical positions the model prints are realised as real zlib streams (spec -> impl)."""
+    consts = {"Thresh": 65032, "Delta": 32256, "MaxPos": 140000, "Lens": "{1, 3, 257, 258}", "Emit": "TRUE"}
+    crit = os.path.join(wd, "critical.json")
+    r = mc("Positions", wd, constants=consts, invariants=["NoOverflow", "WindowKept", "Replay"], workers=8, timeout=1800,
+           replay_out=crit)
+    c.add_model(r, "relative positions of the hash tables over every sequence of token lengths 1, 3, 257, 258 up to "
+                   "position 140000: every conversion to 16 bits in range, nothing inside the window dropped")
+    cfg = os.path.join(wd, "positions_neg.cfg")
+    write_cfg(cfg, constants=dict(consts, Thresh=65278, Emit="FALSE"), invariants=["NoOverflow"])
+    if tlc("Positions", cfg, os.path.join(wd, "positions_neg"), coverage=False, timeout=1800)["ok"]:
+        raise ToolError("Positions.tla does not find the overflow under the late reshift threshold (negative configuration)")
+    c.note("negative model (reshift threshold 0x10000 - 258) violates NoOverflow as expected")
+    res = os.path.join(wd, "critical.res")
+    vh(["deflate-critical", "--in", crit, "--out", res, "--seed", seed], timeout=3600)
+    rs = list(read_ndjson(res))
+    for x in rs:
+        if x["kind"] == "summary":
+            c.cov["critical_positions"] = x
+            if x["realised"] * 2 < x["cases"]:
+                raise ToolError("vacuity: only %d of %d critical-position streams have the planted token" % (x["realised"], x["cases"]))
+    account(c, rs, pid, "critical positions")
 
 
 def all_pairs(c, wd, pid):
